@@ -54,7 +54,17 @@ Info(ln) ==
        [api |-> ln.api, kind |-> ln.kind, name |-> IF NameP(ln) THEN NameClass(Name(ln)) ELSE "none", status |-> ln.status, method |-> ln.method]
   ELSE [api |-> "-", kind |-> "-", name |-> "-", status |-> 0, method |-> "-"]
 
-Init == l = 1
+\* drift bookkeeping in TLC registers: per kind k (index into DriftKinds, K + 1 = any other text) register k counts the
+\* lines, register K + 1 + k keeps the first trace id; register 2K + 3 counts the model rows that differ.  One summary record
+\* per batch (Done) instead of one record per line: the known drift of the code as it is would otherwise crowd out a new one.
+K == Len(DriftKinds)
+KindIdx(d) == LET H == {i \in 1..K : DriftKinds[i] = d} IN IF H = {} THEN K + 1 ELSE CHOOSE i \in H : TRUE
+RowReg == 2 * K + 3
+\* (TLCGet is read again at every use: first the first-id register, then the counter)
+CountDrift(d, t) == LET k == KindIdx(d) IN
+                    (IF TLCGet(k) = 0 THEN TLCSet(K + 1 + k, t) ELSE TRUE) /\ TLCSet(k, TLCGet(k) + 1)
+
+Init == l = 1 /\ \A r \in 1..RowReg : TLCSet(r, 0)
 Next == /\ l <= Len(Lines)
         /\ LET ln == Lines[l]
                v == JVerdict(ln)
@@ -62,9 +72,15 @@ Next == /\ l <= Len(Lines)
                r == IF v = "ok" THEN RowDrift(ln) ELSE "" IN
            /\ IF v = "ok" THEN TRUE
               ELSE PrintT(ToJson([reject |-> 1, t |-> ln.t, i |-> ln.i, clause |-> v, info |-> Info(ln)]))
-           /\ IF d = "" THEN TRUE ELSE PrintT(ToJson([drift |-> 1, t |-> ln.t, what |-> d]))
-           /\ IF r = "" THEN TRUE ELSE PrintT(ToJson([drift |-> 1, t |-> ln.t, what |-> "model row differs: " \o r]))
+           /\ IF d = "" THEN TRUE ELSE CountDrift(d, ln.t)
+           /\ IF r = "" THEN TRUE
+              ELSE (IF TLCGet(RowReg) < 5 THEN PrintT(ToJson([drift |-> 1, t |-> ln.t, what |-> "model row differs: " \o r])) ELSE TRUE)
+                   /\ TLCSet(RowReg, TLCGet(RowReg) + 1)
         /\ l' = l + 1
 
-Done == PrintT(ToJson([judged |-> Len(Lines)])) /\ TLCGet("generated") >= 0
+Done == /\ (IF TLCGet(RowReg) = 0 /\ \A k \in 1..(K + 1) : TLCGet(k) = 0 THEN TRUE
+            ELSE PrintT(ToJson([drift |-> 1, t |-> 0, what |-> "summary", rows |-> TLCGet(RowReg),
+                                kinds |-> [k \in {i \in 1..(K + 1) : TLCGet(i) > 0} |->
+                                             <<IF k <= K THEN DriftKinds[k] ELSE "other", TLCGet(k), TLCGet(K + 1 + k)>>]])))
+        /\ PrintT(ToJson([judged |-> Len(Lines)])) /\ TLCGet("generated") >= 0
 =============================================================================
